@@ -186,6 +186,9 @@ def _metabolite_from_dict(metabolite: Dict) -> Metabolite:
     """
     new_metabolite = Metabolite()
     for k, v in metabolite.items():
+        # The writer stores a missing compartment as an empty string.
+        if k == "compartment" and v == "":
+            v = None
         setattr(new_metabolite, k, v)
     return new_metabolite
 
